@@ -75,7 +75,16 @@ partial def seqLoop (h : IO.FS.Stream) (cands : List Spec.Check.CS) (script : St
             IO.println s!"  STATE now={cs'.s.now} max={cs'.s.maximum} total={cs'.s.totalWeight} m={cs'.s.m.map (fun p => (p.1, p.2.val, p.2.weight, p.2.exp, p.2.ref))} inflight={cs'.s.inflight}"
         seqLoop h cands script (lineNo + 1) true { t with nFailed := t.nFailed + 1 }
       else
-        seqLoop h next script (lineNo + 1) false { t with maxCands := max t.maxCands next.length }
+        -- soft failures (the script goes on): reported only if every explanation that is still alive carries one
+        let opName := (l.kind :: l.toks.take 1).foldl (fun a b => if a == "" then b else a ++ "_" ++ b) ""
+        let mut t := t
+        if next.all (fun c => !c.soft.isEmpty) then
+          for msg in (next.head?.getD {}).soft do
+            let cls : String := if msg.startsWith "C13" then "C13" else "result"
+            IO.println s!"FAIL script={script} line={lineNo} class={cls} op={opName} dead=0 nested=0 k1risk=0 :: {msg} :: {line}"
+            t := { t with nFailed := t.nFailed + 1 }
+        let next' := next.map (fun c => { c with soft := [] })
+        seqLoop h next' script (lineNo + 1) false { t with maxCands := max t.maxCands next'.length }
 
 
 end Driver.Seq
